@@ -135,9 +135,31 @@ def attach_choices(cfg, w):
     return c
 
 
+def _clear_sdk_caches():
+    """Cases must not see each other through process-global state of the SDK (a functools cache added to it, say): what a
+    case observes may depend on the executions of THIS case only - they are what a replay file's prelude re-runs."""
+    import inspect
+
+    for name, mod in list(sys.modules.items()):
+        if not name.startswith("aws_durable_execution_sdk_python"):
+            continue
+        objs = list(vars(mod).values())
+        for o in list(objs):
+            if inspect.isclass(o) and getattr(o, "__module__", "") == name:
+                objs.extend(vars(o).values())
+        for o in objs:
+            cc = getattr(o, "cache_clear", None)
+            if callable(cc):
+                try:
+                    cc()
+                except Exception:  # noqa: BLE001
+                    pass
+
+
 def run_case(check_id, seed_i, tier):
     from dexsim import checks
 
+    _clear_sdk_caches()
     check = checks.CHECKS[check_id]
     if check.component:
         return check.component(seed_i, tier)
@@ -162,7 +184,7 @@ def run_case(check_id, seed_i, tier):
         g2.update(ginfo)
         w2, ix2, vs2 = run_cfg(check, c2, g2)
         _account(res, check, c2, w2, ix2, vs2, history)
-        if len(history) < 6:
+        if len(history) < 24:
             history.append(strip_private(attach_choices(c2, w2)))
     return res
 
@@ -258,6 +280,7 @@ def replay_cfg(check_id, cfg, prelude=None):
     check = checks.CHECKS[check_id]
     if check.component:
         return check.component_replay(cfg)
+    _clear_sdk_caches()
     if prelude:
         from dexsim.driver import run_execution
         for pc in prelude:
